@@ -12,6 +12,11 @@ Shape(r) ==
     ELSE IF \E i \in DOMAIN r.segs : r.segs[i] \in {".", "..", ""} THEN "dot-segments-inside-root"
     ELSE "plain"
 
+\* "ABS" and "OUT" stand for several path segments each: a ".." after one of them removes only
+\* the last of those, which Norm (one token = one segment) cannot express - for such targets
+\* only the safety clauses are judged
+MultiThenDotDot(s) == \E a, b \in DOMAIN s : a < b /\ s[a] \in {"ABS", "OUT"} /\ s[b] = ".."
+
 Judge(r, i) ==
     LET clauses ==
           (IF r.outside_events > 0 THEN {"touches-file-system-outside-root"} ELSE {})
@@ -20,7 +25,7 @@ Judge(r, i) ==
           \cup (IF r.leak THEN {"serves-content-from-outside-root"} ELSE {})
           \* an href with two or more leading slashes inside a report body is a network-path
           \* reference (RFC 3986 4.2): its first segment is an authority, not a path segment
-          \cup (IF Safe(r) /\ ~r.leak /\ ~AsNormalised(r) /\ r.norm = Norm(r.segs)
+          \cup (IF Safe(r) /\ ~r.leak /\ ~AsNormalised(r) /\ r.norm = Norm(r.segs) /\ ~MultiThenDotDot(r.segs)
                    /\ ~(r.method = "MULTIGET" /\ r.netpath)
                    \* a Slug header is a naming hint the server may ignore: only safety applies
                    \* (so is the UID inside an uploaded body)
